@@ -482,8 +482,8 @@ func (e *engine) mergeDelta() error {
 		for i := 0; i < pred.Arity; i++ {
 			queryArgs[i] = ast.Variable{"_"}
 		}
-		for i := range fundep.Source {
-			queryArgs[i] = fact.Args[i]
+		for _, column := range fundep.Source {
+			queryArgs[column] = fact.Args[column]
 		}
 		queryExisting := ast.Atom{pred, queryArgs}
 		// The store must not be modified while it is being scanned (a
